@@ -229,6 +229,10 @@ type Req struct {
 	// Chunked: the body is sent with Transfer-Encoding: chunked in two chunks (unknown length for the receiver)
 	Chunked    bool
 	RemoteAddr string
+	// EnvoyQueryAttribute: through the Envoy entry the query travels in the query attribute of its own (as clients of the
+	// API other than Envoy, and heimdall's own tests, send it). Envoy itself sends the request target, query included, in
+	// the path attribute and leaves the query attribute empty ("always empty, exists for compatibility reasons")
+	EnvoyQueryAttribute bool
 	// Ctx (optional) replaces the background context of the request (e.g. one the harness cancels in mid-flight)
 	Ctx context.Context //nolint:containedctx
 }
@@ -428,9 +432,14 @@ func (a *Apps) DoEnvoy(r *Req) *Resp {
 		}
 	}
 
+	path, query := r.RawPath, r.RawQuery
+	if !r.EnvoyQueryAttribute && query != "" {
+		path, query = path+"?"+query, ""
+	}
+
 	creq := &envoy_auth.CheckRequest{Attributes: &envoy_auth.AttributeContext{Request: &envoy_auth.AttributeContext_Request{
 		Http: &envoy_auth.AttributeContext_HttpRequest{
-			Method: r.Method, Scheme: r.Scheme, Host: r.Host, Path: r.RawPath, Query: r.RawQuery, Headers: hdrs,
+			Method: r.Method, Scheme: r.Scheme, Host: r.Host, Path: path, Query: query, Headers: hdrs,
 			Body: r.Body, RawBody: []byte(r.Body),
 		},
 	}}}
